@@ -592,6 +592,113 @@ Definition parse_hdr (ts : list tok) : res (hdr * list tok) :=
   hdr_go SOwnerDir (mkH [] 0 0 0) ts.
 
 (* ------------------------------------------------------------------ *)
+(* 6b. helpers of the irregular printers and parsers                   *)
+(* ------------------------------------------------------------------ *)
+
+(* types.go CertTypeToString, dnssec.go AlgorithmToString; reverse.go
+   StringToCertType / StringToAlgorithm are their inverses.  Compared with the
+   real maps on every run (case tables2). *)
+Definition cert_table_s : list (N * string) :=
+  [ (1, "PKIX"); (2, "SPKI"); (3, "PGP"); (4, "IPIX"); (5, "ISPKI"); (6, "IPGP"); (7, "ACPKIX"); (8, "IACPKIX");
+    (253, "URI"); (254, "OID") ]%string.
+Definition alg_table_s : list (N * string) :=
+  [ (1, "RSAMD5"); (2, "DH"); (3, "DSA"); (5, "RSASHA1"); (6, "DSA-NSEC3-SHA1"); (7, "RSASHA1-NSEC3-SHA1");
+    (8, "RSASHA256"); (10, "RSASHA512"); (12, "ECC-GOST"); (13, "ECDSAP256SHA256"); (14, "ECDSAP384SHA384");
+    (15, "ED25519"); (16, "ED448"); (252, "INDIRECT"); (253, "PRIVATEDNS"); (254, "PRIVATEOID") ]%string.
+Definition cert_table : list (N * bytes) :=
+  Eval vm_compute in map (fun p => (fst p, bytes_of_string (snd p))) cert_table_s.
+Definition alg_table : list (N * bytes) :=
+  Eval vm_compute in map (fun p => (fst p, bytes_of_string (snd p))) alg_table_s.
+Inductive mtable := MCert | MAlg.
+Definition mtab (m : mtable) : list (N * bytes) := match m with MCert => cert_table | MAlg => alg_table end.
+(* CERT.String: the mnemonic when the map has one, strconv.Itoa otherwise *)
+Definition show_mnem (m : mtable) (n : N) : bytes :=
+  match lookup_code (mtab m) n with Some s => s | None => dec_bytes n end.
+
+(* types.go splitN *)
+Fixpoint splitn_loop (fuel : nat) (s : bytes) (n : nat) : list bytes :=
+  match fuel with
+  | O => [s]
+  | S f => if (n <=? length s)%nat then firstn n s :: splitn_loop f (skipn n s) n else [s]
+  end.
+Definition split_n (s : bytes) (n : nat) : list bytes :=
+  if (length s <? n)%nat then [s] else splitn_loop (S (length s)) s n.
+
+(* strings.Fields on a string of ASCII octets *)
+Definition ascii_space (b : N) : bool :=
+  (b =? 9) || (b =? 10) || (b =? 11) || (b =? 12) || (b =? 13) || (b =? 32).
+Fixpoint fields_go (s cur : bytes) : list bytes :=
+  match s with
+  | [] => if is_nil cur then [] else [rev cur]
+  | c :: r => if ascii_space c then (if is_nil cur then [] else [rev cur]) ++ fields_go r []
+              else fields_go r (c :: cur)
+  end.
+
+(* time: the proleptic Gregorian calendar as package time computes it for UTC *)
+Definition year68 : Z := 2147483648%Z.
+Definition civil_from_days (z0 : Z) : Z * Z * Z :=
+  (let z := z0 + 719468 in
+   let era := z / 146097 in
+   let doe := z - era * 146097 in
+   let yoe := (doe - doe / 1460 + doe / 36524 - doe / 146096) / 365 in
+   let y := yoe + era * 400 in
+   let doy := doe - (365 * yoe + yoe / 4 - yoe / 100) in
+   let mp := (5 * doy + 2) / 153 in
+   let d := doy - (153 * mp + 2) / 5 + 1 in
+   let m := if mp <? 10 then mp + 3 else mp - 9 in
+   ((if m <=? 2 then y + 1 else y), m, d))%Z.
+Definition days_from_civil (y m d : Z) : Z :=
+  (let y' := if m <=? 2 then y - 1 else y in
+   let era := y' / 400 in
+   let yoe := y' - era * 400 in
+   let doy := (153 * (if 2 <? m then m - 3 else m + 9) + 2) / 5 + d - 1 in
+   let doe := yoe * 365 + yoe / 4 - yoe / 100 + doy in
+   era * 146097 + doe - 719468)%Z.
+Definition is_leap (y : Z) : bool :=
+  (((y mod 4 =? 0) && negb (y mod 100 =? 0)) || (y mod 400 =? 0))%Z.
+Definition days_in (m y : Z) : Z :=
+  (if m =? 2 then (if is_leap y then 29 else 28)
+   else if (m =? 4) || (m =? 6) || (m =? 9) || (m =? 11) then 30 else 31)%Z.
+(* time/format.go appendInt *)
+Definition pad_dec (w : nat) (n : N) : bytes := let d := dec_bytes n in repeat 48 (w - length d) ++ d.
+Definition append_int (x : Z) (w : nat) : bytes :=
+  if (x <? 0)%Z then 45 :: pad_dec w (Z.to_N (- x)) else pad_dec w (Z.to_N x).
+(* time.Unix(ti, 0).UTC().Format("20060102150405") *)
+Definition format_time (ti : Z) : bytes :=
+  (let days := ti / 86400 in
+   let sod := ti mod 86400 in
+   let '(y, m, d) := civil_from_days days in
+   append_int y 4 ++ append_int m 2 ++ append_int d 2 ++
+   append_int (sod / 3600) 2 ++ append_int (sod / 60 mod 60) 2 ++ append_int (sod mod 60) 2)%Z.
+(* types.go TimeToString with time.Now().Unix() = now; Go's / truncates *)
+Definition time_to_string (now : Z) (t : N) : bytes :=
+  (let m0 := Z.quot (Z.of_N t - now) year68 - 1 in
+   let md := if m0 <? 0 then 0 else m0 in
+   format_time (Z.of_N t - md * year68))%Z.
+(* types.go StringToTime: time.Parse("20060102150405", s) accepts exactly 14
+   digits with valid ranges, optionally followed by a fractional second *)
+Definition dval (a b : N) : Z := Z.of_N ((a - 48) * 10 + (b - 48)).
+Definition stt_core (y mo d h mi se : Z) : option N :=
+  (if (mo <? 1) || (12 <? mo) || (24 <=? h) || (60 <=? mi) || (60 <=? se) || (d <? 1) || (days_in mo y <? d)
+   then None
+   else
+     let T := days_from_civil y mo d * 86400 + h * 3600 + mi * 60 + se in
+     let m0 := Z.quot T year68 - 1 in
+     let md := if m0 <? 0 then 0 else m0 in
+     Some (Z.to_N ((T - md * year68) mod 4294967296)))%Z.
+Definition string_to_time (s : bytes) : option N :=
+  match s with
+  | y1 :: y2 :: y3 :: y4 :: m1 :: m2 :: d1 :: d2 :: h1 :: h2 :: i1 :: i2 :: s1 :: s2 :: rest =>
+    if negb (forallb is_digit [y1; y2; y3; y4; m1; m2; d1; d2; h1; h2; i1; i2; s1; s2]) then None
+    else if negb (match rest with
+                  | [] => true
+                  | c :: ds => ((c =? 46) || (c =? 44)) && negb (is_nil ds) && forallb is_digit ds
+                  end) then None
+    else stt_core (dval y1 y2 * 100 + dval y3 y4) (dval m1 m2) (dval d1 d2) (dval h1 h2) (dval i1 i2) (dval s1 s2)
+  | _ => None
+  end.
+
+(* ------------------------------------------------------------------ *)
 (* 7. regular RDATA: a presentation grammar                            *)
 (* ------------------------------------------------------------------ *)
 
@@ -604,7 +711,20 @@ Inductive pfield :=
 | P_octet                (* sprintTxtOctet / endingToTxtSlice with exactly one string *)
 | P_hex (up : bool)      (* hex text to the end of the line, upper-cased by the printer if up *)
 | P_b64                  (* base64 text to the end of the line *)
-| P_types.               (* type bitmap mnemonics to the end of the line *)
+| P_types                (* type bitmap mnemonics to the end of the line *)
+(* the irregular printers / parsers (B05) *)
+| P_word (strict : bool) (* printed verbatim (X25 address, CAA tag); strict: the token must be a zString *)
+| P_rawname              (* NAPTR replacement: printed verbatim, read by toAbsoluteName *)
+| P_qstr                 (* NAPTR flags, service, regexp: quote, verbatim, quote / zQuote [zString] zQuote *)
+| P_hinfo                (* HINFO, ISDN: sprintTxt of two strings / endingToTxtSlice and the Fields repair *)
+| P_uinfo                (* UINFO: sprintTxt of one string / first string of endingToTxtSlice *)
+| P_salt (strict : bool) (* saltToString / "-" or the token; strict (NSEC3): an empty token is refused *)
+| P_b32                  (* NSEC3 next hashed owner: verbatim / the token, HashLength := 20 *)
+| P_hexsplit             (* SMIMEA: hex text in 1024-character words / endingToString *)
+| P_mnem (tbl : mtable) (bits : N)  (* CERT type and algorithm: mnemonic or decimal / exact mnemonic, else ParseUint *)
+| P_algnum               (* RRSIG algorithm: decimal / ParseUint, else exact mnemonic *)
+| P_type                 (* RRSIG type covered: Type.String / mnemonic in any case, else TYPEnnn *)
+| P_time.                (* RRSIG expiration, inception: TimeToString / StringToTime, else ParseUint 32 *)
 
 (* field values as the Go structs hold them *)
 Inductive pval :=
@@ -614,10 +734,12 @@ Inductive pval :=
 | V_strs (l : list bytes)
 | V_octet (s : bytes)
 | V_word (s : bytes)
-| V_types (l : list N).
+| V_types (l : list N)
+| V_sized (n : N) (s : bytes)     (* a length octet of the struct (SaltLength, HashLength) and its text *)
+| V_time (now : Z) (t : N).       (* a 32-bit time and the clock reading (Unix seconds) TimeToString sees *)
 
 Definition is_rest (f : pfield) : bool :=
-  match f with P_qstrs | P_octet | P_hex _ | P_b64 | P_types => true | _ => false end.
+  match f with P_qstrs | P_octet | P_hex _ | P_b64 | P_types | P_hinfo | P_uinfo | P_hexsplit => true | _ => false end.
 
 Fixpoint join_bytes (sep : bytes) (l : list bytes) : bytes :=
   match l with
@@ -640,6 +762,18 @@ Definition present_field (f : pfield) (v : pval) : bytes :=
   | P_hex up, V_word h => if up then upper_bytes h else h
   | P_b64, V_word w => w
   | P_types, V_types l => join_bytes [32] (map show_type l)
+  | P_word _, V_word s => s
+  | P_rawname, V_name s => s
+  | P_qstr, V_word s => [34] ++ s ++ [34]
+  | P_hinfo, V_strs l => sprint_txt l
+  | P_uinfo, V_octet s => sprint_txt [s]
+  | P_salt _, V_sized _ h => if is_nil h then [45] else upper_bytes h
+  | P_b32, V_sized _ w => w
+  | P_hexsplit, V_word h => join_bytes [32] (split_n h 1024)
+  | P_mnem m _, V_int n => show_mnem m n
+  | P_algnum, V_int n => dec_bytes n
+  | P_type, V_int t => show_type t
+  | P_time, V_time now t => time_to_string now t
   | _, _ => []
   end.
 
@@ -704,8 +838,80 @@ Definition tok_text (t : tok) : bytes :=
   | _ => []
   end.
 
+(* HINFO.parse / ISDN.parse after endingToTxtSlice.  strings.Fields is
+   modelled for ASCII; a lone chunk with other octets is outside the model. *)
+Definition hinfo_chunks (l : list bytes) : res (list bytes) :=
+  match l with
+  | [] => Ok [[]; []]
+  | [c] =>
+    if forallb (fun b => b <? 128) c then
+      match fields_go c [] with
+      | a :: b :: r => Ok [a; join_bytes [32] (b :: r)]
+      | _ => Ok [c; []]
+      end
+    else OutOfFuel
+  | a :: rest => Ok [a; join_bytes [32] rest]
+  end.
+
 (* Go reads "the next token" for a simple field whatever its kind and looks
-   at its text only; then skips one token (the blank) if more fields follow. *)
+   at its text only (a few parsers also look at the kind); at the end of the
+   input the lexer keeps delivering zEOF, whose text is empty.  NAPTR reads
+   its quoted strings token by token. *)
+Definition read_single (f : pfield) (ts : list tok) : res (pval * list tok) :=
+  match f with
+  | P_qstr =>
+    match ts with
+    | TQuote :: TStr s :: TQuote :: r => Ok (V_word s, r)
+    | TQuote :: TQuote :: r => Ok (V_word [], r)
+    | _ => Err "qstr"
+    end
+  | _ =>
+    let '(t, r) := match ts with [] => (None, []) | t :: r => (Some t, r) end in
+    if match t with Some t => is_err t | None => false end then Err "lex" else
+    let text := match t with Some t => tok_text t | None => [] end in
+    let is_str := match t with Some (TStr _) => true | _ => false end in
+    do v <- match f with
+            | P_uint bits => match parse_uint text bits with Some n => Ok (V_int n) | None => Err "int" end
+            | P_u32ttl => match parse_uint text 32 with
+                          | Some n => Ok (V_int n)
+                          | None => match string_to_ttl text with Some n => Ok (V_int n) | None => Err "int" end
+                          end
+            | P_name | P_rawname => match to_absolute_name text with Some n => Ok (V_name n) | None => Err "name" end
+            | P_ip4 => match parse_ip4 text with Some a => Ok (V_ip4 a) | None => Err "ip" end
+            | P_word strict => if strict && negb is_str then Err "word" else Ok (V_word text)
+            | P_salt strict =>
+              if strict && is_nil text then Err "salt"
+              else if bytes_eqb text [45] then Ok (V_sized 0 [])
+              else Ok (V_sized ((lenN text / 2) mod 256) text)
+            | P_b32 => if is_nil text then Err "b32" else Ok (V_sized 20 text)
+            | P_mnem m bits =>
+              match lookup_name (mtab m) text with
+              | Some n => Ok (V_int n)
+              | None => match parse_uint text bits with Some n => Ok (V_int n) | None => Err "mnem" end
+              end
+            | P_algnum =>
+              match parse_uint text 8 with
+              | Some n => Ok (V_int n)
+              | None => match lookup_name alg_table text with Some n => Ok (V_int n) | None => Err "alg" end
+              end
+            | P_type =>
+              let up := upper_bytes text in
+              match string_to_type up with
+              | Some t => Ok (V_int t)
+              | None => if has_prefix b_TYPE up
+                        then match type_to_int text with Some t => Ok (V_int t) | None => Err "type" end
+                        else Err "type"
+              end
+            | P_time =>
+              match string_to_time text with
+              | Some t => Ok (V_int t)
+              | None => match parse_uint text 32 with Some t => Ok (V_int t) | None => Err "time" end
+              end
+            | _ => Err "field"
+            end;
+    Ok (v, r)
+  end.
+
 Fixpoint parse_fields (G : list pfield) (ts : list tok) : res (list pval) :=
   match G with
   | [] => do _ <- slurp_remainder ts; Ok []
@@ -715,32 +921,20 @@ Fixpoint parse_fields (G : list pfield) (ts : list tok) : res (list pval) :=
     | P_octet =>
       do l <- ending_to_txt_slice ts;
       match l with [s] => Ok [V_octet s] | _ => Err "octet" end
-    | P_hex _ | P_b64 => do w <- ending_to_string ts; Ok [V_word w]
+    | P_hex _ | P_b64 | P_hexsplit => do w <- ending_to_string ts; Ok [V_word w]
     | P_types => do l <- parse_types_go ts []; Ok [V_types l]
+    | P_hinfo => do l <- ending_to_txt_slice ts; do c <- hinfo_chunks l; Ok [V_strs c]
+    | P_uinfo => do l <- ending_to_txt_slice ts; Ok [V_octet (match l with [] => [] | s :: _ => s end)]
     | _ =>
-      match ts with
-      | [] => Err "eof"
-      | t :: r =>
-        if is_err t then Err "lex" else
-        let text := tok_text t in
-        do v <- match f with
-                | P_uint bits => match parse_uint text bits with Some n => Ok (V_int n) | None => Err "int" end
-                | P_u32ttl => match parse_uint text 32 with
-                              | Some n => Ok (V_int n)
-                              | None => match string_to_ttl text with Some n => Ok (V_int n) | None => Err "int" end
-                              end
-                | P_name => match to_absolute_name text with Some n => Ok (V_name n) | None => Err "name" end
-                | P_ip4 => match parse_ip4 text with Some a => Ok (V_ip4 a) | None => Err "ip" end
-                | _ => Err "field"
-                end;
-        (* a following field: simple fields skip the blank; rest fields read on *)
-        let r' := match G' with
-                  | [] => r
-                  | g :: _ => if is_rest g then (match g with P_octet => tl r | _ => r end) else tl r
-                  end in
-        do vs <- parse_fields G' r';
-        Ok (v :: vs)
-      end
+      do p <- read_single f ts;
+      let '(v, r) := p in
+      (* a following field: simple fields skip the blank; rest fields read on *)
+      let r' := match G' with
+                | [] => r
+                | g :: _ => if is_rest g then (match g with P_octet => tl r | _ => r end) else tl r
+                end in
+      do vs <- parse_fields G' r';
+      Ok (v :: vs)
     end
   end.
 
@@ -759,6 +953,16 @@ Definition meaning (f : pfield) (v : pval) : option mval :=
   | P_hex _, V_word h => Some (M_octets (unhex (string_of_bytes h)))
   | P_b64, V_word w => Some (M_octets w)
   | P_types, V_types l => Some (M_types l)
+  | P_word _, V_word s => Some (M_octets (unescape s))
+  | P_qstr, V_word s => Some (M_octets (unescape s))
+  | P_rawname, V_name s => Some (M_name (name_units s))
+  | P_hinfo, V_strs l => Some (M_strs (map unescape l))
+  | P_uinfo, V_octet s => Some (M_octets (unescape s))
+  | P_salt _, V_sized _ h => Some (M_octets (unhex (string_of_bytes h)))
+  | P_b32, V_sized _ w => Some (M_octets w)
+  | P_hexsplit, V_word h => Some (M_octets (unhex (string_of_bytes h)))
+  | P_mnem _ _, V_int n | P_algnum, V_int n | P_type, V_int n | P_time, V_int n => Some (M_int n)
+  | P_time, V_time _ t => Some (M_int t)
   | _, _ => None
   end.
 
@@ -791,6 +995,18 @@ Definition playout (t : N) : option (list pfield) :=
   else if t =? 105 then Some [P_uint 16; P_ip4]
   else if (t =? 47) || (t =? 30) then Some [P_name; P_types]
   else if t =? 62 then Some [P_uint 32; P_uint 16; P_types]
+  (* the irregular types (B05) *)
+  else if (t =? 13) || (t =? 20) then Some [P_hinfo]
+  else if t =? 100 then Some [P_uinfo]
+  else if t =? 19 then Some [P_word false]
+  else if t =? 257 then Some [P_uint 8; P_word true; P_octet]
+  else if t =? 35 then Some [P_uint 16; P_uint 16; P_qstr; P_qstr; P_qstr; P_rawname]
+  else if t =? 53 then Some [P_uint 8; P_uint 8; P_uint 8; P_hexsplit]
+  else if t =? 51 then Some [P_uint 8; P_uint 8; P_uint 16; P_salt false]
+  else if t =? 50 then Some [P_uint 8; P_uint 8; P_uint 16; P_salt true; P_b32; P_types]
+  else if t =? 37 then Some [P_mnem MCert 16; P_uint 16; P_mnem MAlg 8; P_b64]
+  else if (t =? 46) || (t =? 24)
+  then Some [P_type; P_algnum; P_uint 8; P_uint 32; P_time; P_time; P_uint 16; P_name; P_b64]
   else None.
 
 (* ------------------------------------------------------------------ *)
